@@ -117,7 +117,8 @@ let () = iter_lines (fun line ->
         Buffer.add_string buf (" | m " ^ zs s.mutCount);
         if s.columns <> [] then
           for o = 0 to int_of_z s.totalSize - 1 do
-            if Gen_Bits.coq_GetBit s.mutBytes (z_of_int o) then Buffer.add_string buf (Printf.sprintf " %d" o)   (* the generated GetBit *)
+            (match Gen_Mut.coq_IsMutable Gen_Bits.coq_GetBit s.totalSize s.mutBytes (z_of_int o) with   (* the generated IsMutable + GetBit *)
+             | GenPrelude.Ok true -> Buffer.add_string buf (Printf.sprintf " %d" o) | GenPrelude.Ok false -> () | _ -> Buffer.add_string buf " ASSERT")
           done
       ) !ops;
       Buffer.add_string buf " ; raw ok ; ev n:";
